@@ -61,7 +61,7 @@ func genPolicy(t *rapid.T) simnet.Policy {
 }
 
 func genC08(t *rapid.T) c08Plan {
-	sets := [][]byte{{0}, {1}, {0, 1}}
+	sets := [][]byte{{0}, {1}, {0, 1}, {1, 0}} // the order in which a record lists its versions must not matter
 	return c08Plan{VA: rapid.SampledFrom(sets).Draw(t, "va"), VB: rapid.SampledFrom(sets).Draw(t, "vb"),
 		Held: rapid.IntRange(0, 3).Draw(t, "held") != 0, Size: genSize(t), Seed: rapid.Byte().Draw(t, "seed"),
 		KeySeed: rapid.Uint32().Draw(t, "key"), Table: genTableNodes(t, rapid.SampledFrom([]int{0, 6, 40, 272}).Draw(t, "maxN")),
